@@ -241,6 +241,25 @@ def generate(rng: random.Random, tier: str):
                         yield commute_case(fam, doc, sa, sb, "behind-double-wrap")
 
 
+    # pairs that are NOT separated (overlapping, nested, touching): nothing is claimed about them, but Step.map - whether
+    # the rebased step is dropped, and where it lands - must still be what the model computes (deleted flags of both
+    # ends, gaps falling outside a shrunken range)
+    for fam in ("list", "blockmarks"):
+        g, docs = S.family_docs(rng, fam, 5 if quick else 50)
+        for doc in docs:
+            n = doc.content.size
+            if n < 4:
+                continue
+            for _ in range(12 if quick else 40):
+                lo = rng.randint(0, n - 2)
+                hi = rng.randint(lo + 1, min(n, lo + 8))
+                sa = one_step(rng, g, doc, docs, lo, hi)
+                sb = one_step(rng, g, doc, docs, max(0, lo - 2), min(n, hi + 2))
+                if sa is None or sb is None:
+                    continue
+                yield commute_case(fam, doc, sa, sb, "overlapping")
+
+
 def rebuild(desc):
     sc = gen.family(desc["family"])
     doc = Node.from_json(sc, desc["doc"])
